@@ -57,10 +57,46 @@ class Ranges:
         self.folder = Folder(repo, mod.name, consts or {})
         self.callee_accept = callee_accept or {}
         self.uninterpreted = []  # (node, reason) tests/assignments that mention a tracked key but were not understood
+        self.mod_tests = {}  # test node id -> (key, mul, add, m, c, is_eq): residue tests kept as side constraints
         self.interpreted_tests = []
         self.in_state = {}
         self.edge_state = {}
+        self._local_consts()
         self._run()
+
+    def _mod_test(self, test, st):
+        """`<tracked> % m ==/!= c` -> (key, mul, add, m, c, is_eq) or None"""
+        if isinstance(test, ast.Compare) and len(test.ops) == 1 and isinstance(test.ops[0], (ast.Eq, ast.NotEq)) and isinstance(test.left, ast.BinOp) \
+                and isinstance(test.left.op, ast.Mod):
+            a = self.affine(test.left.left, st)
+            m, c = self.const(test.left.right), self.const(test.comparators[0])
+            if a and isinstance(m, int) and isinstance(c, int) and m > 0:
+                return (a[0], a[1], a[2], m, c, isinstance(test.ops[0], ast.Eq))
+        return None
+
+    def _local_consts(self):
+        """Locals assigned exactly once from a foldable numeric expression behave as constants (`half = N // 2`)."""
+        counts = {}
+        for n in ast.walk(self.fn):
+            tgts = []
+            if isinstance(n, ast.Assign):
+                tgts = n.targets
+            elif isinstance(n, (ast.AugAssign, ast.AnnAssign, ast.For)):
+                tgts = [n.target]
+            elif isinstance(n, ast.arg):
+                counts[n.arg] = counts.get(n.arg, 0) + 2
+            for t in tgts:
+                for x in ast.walk(t):
+                    if isinstance(x, ast.Name):
+                        counts[x.id] = counts.get(x.id, 0) + 1
+        for _ in range(3):
+            for n in ast.walk(self.fn):
+                if isinstance(n, ast.Assign) and len(n.targets) == 1 and isinstance(n.targets[0], ast.Name):
+                    nm = n.targets[0].id
+                    if counts.get(nm) == 1 and nm not in self.track and nm not in self.folder.env:
+                        v = self.folder.fold(n.value)
+                        if isinstance(v, (int, float)) and not isinstance(v, bool):
+                            self.folder.env[nm] = v
 
     # -- abstract evaluation ---------------------------------------------------------------
     def const(self, expr):
@@ -286,6 +322,21 @@ class Ranges:
     # -- transfer ---------------------------------------------------------------------------
     def _assign(self, target, value, st):
         if isinstance(target, ast.Tuple):
+            if isinstance(value, ast.Tuple) and len(value.elts) == len(target.elts):
+                # a, b = x, y  (right-hand sides are evaluated before any store: evaluate on a snapshot)
+                snap = st.copy()
+                for t, v in zip(target.elts, value.elts):
+                    tmp = snap.copy()
+                    self._assign(t, v, tmp)
+                    if isinstance(t, ast.Name):
+                        if t.id in tmp.alias:
+                            st.alias[t.id] = tmp.alias[t.id]
+                        else:
+                            st.alias.pop(t.id, None)
+                    k = key_of(t)
+                    if k in tmp.vals:
+                        st.vals[k] = tmp.vals[k]
+                return
             for t in target.elts:
                 self._kill(t, st)
             return
@@ -373,7 +424,12 @@ class Ranges:
                 for truth in (True, False):
                     s2, ok = self.refine(node.ast, st, truth)
                     if not ok and self.mentions(node.ast, st):
-                        unint[nid] = "test not interpreted: %s" % ast.unparse(node.ast)
+                        mt = self._mod_test(node.ast, st)
+                        if mt:
+                            # a residue test does not refine an interval; it is kept as a side constraint for witnesses
+                            self.mod_tests[nid] = mt
+                        else:
+                            unint[nid] = "test not interpreted: %s" % ast.unparse(node.ast)
                     elif ok and self.mentions(node.ast, st):
                         self.interpreted_tests.append(nid)
                     outs[truth] = s2
